@@ -27,7 +27,7 @@ ASSUMPTIONS = [
 ]
 
 HTMLNS = canon.HTML
-OMISSIBLE = frozenset(["html", "head", "body", "li", "dt", "dd", "p", "rt", "rp", "optgroup", "option", "colgroup",
+OMISSIBLE = frozenset(["html", "head", "body", "li", "dt", "dd", "p", "rt", "rp", "optgroup", "option", "colgroup", "caption",
                        "thead", "tbody", "tfoot", "tr", "td", "th"])
 P_FOLLOW = frozenset(["address", "article", "aside", "blockquote", "details", "div", "dl", "fieldset", "figcaption",
                       "figure", "footer", "form", "h1", "h2", "h3", "h4", "h5", "h6", "header", "hgroup", "hr", "main",
@@ -152,7 +152,7 @@ def allowed(tokens, i, parent, match, removed):
         return followed_by(nk, ("optgroup",)) or no_more
     if name == "option":
         return followed_by(nk, ("option", "optgroup")) or no_more
-    if name == "colgroup":
+    if name in ("colgroup", "caption"):
         return not (nk[0] == "comment" or (nk[0] == "text" and nk[1]))
     if name == "thead":
         return followed_by(nk, ("tbody", "tfoot"))
@@ -352,7 +352,7 @@ def window_allowed(prev, cur, nxt):
         return fb(("optgroup",)) or no_more
     if name == "option":
         return fb(("option", "optgroup")) or no_more
-    if name == "colgroup":
+    if name in ("colgroup", "caption"):
         return not (nk[0] == "comment" or (nk[0] == "text" and nk[1]))
     if name == "thead":
         return fb(("tbody", "tfoot"))
